@@ -20,7 +20,7 @@ RULE = ("Hypothesis-generated prefix histories (<=8 ops: valid plain sets, links
         "parameters holding shared number generators under a time-dependent clock, with a rejected (constant / read-only / "
         "out-of-bounds) assignment of a generator or plain value; oracle = what every parameter yields at the unchanged time, "
         "the stored generators and the event log are the same before and after (non-trivial there = the rejected generator "
-        "is also the live value of another parameter). A third, small world (1 case in 13): a rejected assignment to a parameter on which an asynchronous reference is still pending - the reference must still deliver.")
+        "is also the live value of another parameter). A third, small world (1 case in 13): a rejected assignment to a parameter on which an asynchronous reference is still pending - the reference must still deliver. Round-4 additions: references that yield nothing right now (Skip) assigned to constants / read-only parameters, Composites whose later component is constant, read-only or given a reference with an invalid current value, and the set of names the target holds a value of its own for (an instance that followed the class default must still follow it).")
 ASSUMPTIONS = [
     "only attempts the spec rejects are generated (whether a value is rejected is C01's subject)",
     "multi-key update() is excluded: C05 requires the keys applied before a rejected one to be announced",
